@@ -89,6 +89,7 @@ CLASS_BIN = {
     "named.escaped_close_after_placeholder": "named",
     "named.value_contains_separator": "named",
     "named.newline_in_value": "named",
+    "named.runtime_metadata_json_template": "named",
     "rot.same_second_restart_datetime": "rot",
     "rot.drift_after_late_trigger": "rot",
     "rot.no_extension_no_clean_no_recover": "rot",
